@@ -11,7 +11,8 @@ ID = 'C02'
 LEVEL = 'exploration'
 TECHNIQUE = 'bounded exhaustive enumeration of API-built trees x alphabets x output-option subsets, independent decoders of every format'
 
-SPECIAL = ['&', '<"\'>', 'ä日', '(', ')', 'a[b', '{}', '-LRB-', 'x' * 7, 'x' * 8, 'y' * 15, 'z' * 16, 'q' * 17, '#', '*T*-1']
+SPECIAL = ['&', '<"\'>', 'ä日', '(', ')', 'a[b', '{}', '-LRB-', 'x' * 7, 'x' * 8, 'y' * 15, 'z' * 16, 'q' * 17, '#', '*T*-1',
+           'v' * 23, 'w' * 24, 'u' * 33]
 LABEL_OPTS = ['gf', 'gf_terminals', 'mark_heads_marking', 'boyd_split_marking', 'boyd_split_numbering']
 FORMAT_OPTS = {
     'export': ['export_four'] + LABEL_OPTS + ['gf_separator'],
@@ -96,7 +97,7 @@ def variants(sh, vi):
 
     def toks(words):
         return model.mk_tokens(n, words=words, pos=['P%d' % (i + 1) if i % 3 else '$(' for i in range(n)],
-                               lemma=['l%d' % i for i in range(n)], morph=['m' * (1 + 7 * (i % 3)) for i in range(n)],
+                               lemma=['l' * (1 + 23 * (i % 2)) + str(i) for i in range(n)], morph=['m' * [1, 8, 15, 16, 17][i % 5] for i in range(n)],
                                edge=[edges[i % len(edges)] for i in range(n)])
     yield 'plain', model.MT(12, toks(['w%d' % (i + 1) for i in range(n)]), root), ()
     xroot = model.decorate(sh, lambda p, s: ['N&', 'N<x>', 'N"q"', "N'a"][(sum(p) + len(p)) % 4] + ''.join(map(str, p)),
@@ -119,8 +120,6 @@ def option_subsets(fmt, dev):
     for r in range(0, min(dev, len(names)) + 1):
         for sub in itertools.combinations(names, r):
             if 'gf_separator' in sub and 'gf' not in sub:
-                continue
-            if 'gf_terminals' in sub and 'gf' not in sub:
                 continue
             yield {k: ('#' if k == 'gf_separator' else True) for k in sub}
     if fmt in ('export', 'brackets', 'discobrackets'):
